@@ -109,16 +109,15 @@ def r08_5(facts, res):
             res.add(Finding("R08-5", "%s|extra" % enum_name, "%s handles tokens %s that the production does not have" % (enum_name, extra), f["file"], f["line"], {}))
     for path, (enum_name, table) in EVAL_TABLE.items():
         f = facts.fn(path)
-        arms = match_arms_on(f, "model::" + enum_name)
-        if arms is None:
-            raise BrokenCheck("R08-5: no match over %s in %s" % (enum_name, path))
-        seen = {}
-        for arm in arms:
-            for v in variants_of_pat(arm["pat"]):
-                seen[v] = arm_callees(facts, arm["body"])
+        import xpdispatch
+        prims = set(table.values())
+        seen, nuses = xpdispatch.table(facts, f, "model::" + enum_name, lambda nm: nm in prims, "R08-5")
+        if nuses < len(prims):
+            raise BrokenCheck("R08-5: %d uses of the %d primitives of %s found from %s" % (nuses, len(prims), enum_name, path))
+        seen = {v: sorted(x) for v, x in seen.items()}
         for variant, prim in table.items():
             st["instances"] += 1
-            ok = prim in seen.get(variant, [])
+            ok = seen.get(variant) == [prim]
             res.oblige(1, ok)
             if not ok:
                 res.add(Finding("R08-5", "%s|%s" % (path.split("::")[-1], variant), "%s: the arm for %s applies %s, expected %s"
@@ -140,28 +139,35 @@ def r08_3(facts, res):
     """Abbreviated and unabbreviated steps reach the same evaluator code."""
     st = res.rule("R08-3", instances=0)
     f = facts.fn("xml_xpath::eval::eval_axis_node_test")
-    axis_arms = match_arms_on(f, "model::AxisName")
-    if axis_arms is None:
-        raise BrokenCheck("R08-3: match over AxisName not found")
-    by_variant = {}
-    for arm in axis_arms:
-        for v in variants_of_pat(arm["pat"]):
-            by_variant.setdefault(v, arm_callees(facts, arm["body"]))
-    # the abbreviated match: on v.as_str() with "@" and _
+    import xpdispatch
+    _, table, nuses = xpdispatch.axis_table(facts, lambda nm: nm in xpdispatch.AXIS_TARGETS, "R08-3")
+    if nuses < 6:
+        raise BrokenCheck("R08-3: only %d uses of axis functions found from eval_axis_node_test (floor 6)" % nuses)
+    by_variant = {v: sorted(x) for v, x in table.items()}
+    # the abbreviated match: on v.as_str() with "@" and _ (in eval_axis_node_test or a function it hands the axis to)
     abbr = {}
-    for n in walk(f["body"]):
-        if n.get("k") == "Match" and n.get("src") == "Normal" and "str" in str(n.get("scrutty", "")):
-            for arm in n["arms"]:
-                pat = arm["pat"]
-                if pat.get("p") == "Expr" and pat["e"].get("t") == "str":
-                    abbr[pat["e"]["v"]] = arm_callees(facts, arm["body"])
-                elif pat.get("p") in ("Wild", "Bind"):
-                    abbr["_"] = arm_callees(facts, arm["body"])
-            break
+
+    def axis_only_of(body):
+        cs = sorted(c for c in arm_callees(facts, body) if c in xpdispatch.AXIS_TARGETS)
+        if not cs:
+            # the arm names the unabbreviated axis instead (`"@" => &AxisName::Attribute`): same evaluator by construction
+            named = [str(m["path"]).split("::")[-1] for m in walk(body) if m.get("k") == "Path" and "model::AxisName::" in str(m.get("path", ""))]
+            if len(named) == 1:
+                return list(by_variant.get(named[0]) or [])
+        return cs
+    for g in xpdispatch.axis_scope(facts):
+        for n in walk(g["body"]):
+            if n.get("k") == "Match" and n.get("src") == "Normal" and "str" in str(n.get("scrutty", "")) and not abbr:
+                for arm in n["arms"]:
+                    pat = arm["pat"]
+                    if pat.get("p") == "Expr" and pat["e"].get("t") == "str":
+                        abbr[pat["e"]["v"]] = axis_only_of(arm["body"])
+                    elif pat.get("p") in ("Wild", "Bind"):
+                        abbr["_"] = axis_only_of(arm["body"])
     pairs = [("@", "Attribute"), ("_", "Child")]
     for a, v in pairs:
         st["instances"] += 1
-        ok = a in abbr and ws(abbr[a]) == ws(by_variant.get(v) or []) and bool(ws(abbr[a]))
+        ok = a in abbr and abbr[a] == (by_variant.get(v) or []) and bool(abbr[a])
         res.oblige(1, ok)
         if not ok:
             res.add(Finding("R08-3", "abbr:%s" % a, "abbreviated axis %r evaluates with %s but %s:: evaluates with %s"
